@@ -88,6 +88,19 @@ def gen_cases(rng, tier, count=None):
             int(x) for x in rng.integers(1, T, size=int(rng.integers(0, 4))))
         c["tolerate_query_errors"] = True
         out.append(c)
+    for i in range(120 if tier == "quick" else 1500):
+        if i % 2 == 0:
+            # StoSOO on nearly flat / far-offset rewards (means that differ in their last digits only), the
+            # recommendation asked after every round
+            c = gen.algo_case(rng, "StoSOO", tier, fams=["nearflat", "nearflat", "large_off", "huge_off"], early_stop=False)
+            c["queries"] = list(range(c["T"]))
+        else:
+            # SequOOL on two-children partitions with the whole budget played (the schedule is exhausted inside the
+            # budget and the root keeps collecting rewards) and late rewards that beat every search reward
+            c = gen.algo_case(rng, "SequOOL", tier, fams=["incr", "best_last", "records", "drift"], early_stop=False,
+                              part=str(rng.choice(["Bin", "K2", "RBin", "RK2"])))
+            c["queries"] = list(range(c["T"])) if i % 4 == 1 else []
+        out.append(c)
     return out
 
 
